@@ -699,6 +699,44 @@ def _peel_iterators(tree):
     return tree
 
 
+def _unpack_saved_tensors(tree):
+    """(starred unpacking only; a plain `a, b = ctx.saved_tensors` is already what the rules read)  `a, b, *rest = ctx.saved_tensors`  ->  `saved_tensors = ctx.saved_tensors; a = saved_tensors[0]; b = saved_tensors[1]; rest = list(saved_tensors[2:])`
+    (unpacking a tuple is indexing it; the starred target receives a list).  Only for the autograd context's tuple, whose positions the rules
+    reason about."""
+    for fn in [n for n in ast.walk(tree) if isinstance(n, (ast.FunctionDef, ast.AsyncFunctionDef))]:
+        used = {n.id for n in ast.walk(fn) if isinstance(n, ast.Name)}
+        for owner in ast.walk(fn):
+            for fld in ("body", "orelse", "finalbody"):
+                b = getattr(owner, fld, None)
+                if not (isinstance(b, list) and b and isinstance(b[0], ast.stmt)):
+                    continue
+                out = []
+                for st in b:
+                    tg = st.targets[0] if isinstance(st, ast.Assign) and len(st.targets) == 1 else None
+                    if isinstance(tg, (ast.Tuple, ast.List)) and isinstance(st.value, ast.Attribute) and st.value.attr == "saved_tensors" \
+                            and all(isinstance(e, ast.Name) or (isinstance(e, ast.Starred) and isinstance(e.value, ast.Name)) for e in tg.elts) \
+                            and sum(isinstance(e, ast.Starred) for e in tg.elts) == 1 and "saved_tensors" not in used:
+                        tmp = "saved_tensors"
+                        used.add(tmp)
+                        out.append(ast.copy_location(ast.Assign(targets=[ast.Name(id=tmp, ctx=ast.Store())], value=st.value), st))
+                        n_after = 0
+                        star_at = next((i for i, e in enumerate(tg.elts) if isinstance(e, ast.Starred)), None)
+                        for i, e in enumerate(tg.elts):
+                            if isinstance(e, ast.Starred):
+                                n_after = len(tg.elts) - i - 1
+                                sl = ast.Slice(lower=ast.Constant(value=i) if i else None, upper=ast.UnaryOp(op=ast.USub(), operand=ast.Constant(value=n_after)) if n_after else None, step=None)
+                                val = ast.Call(func=ast.Name(id="list", ctx=ast.Load()), args=[ast.Subscript(value=ast.Name(id=tmp, ctx=ast.Load()), slice=sl, ctx=ast.Load())], keywords=[])
+                                out.append(ast.copy_location(ast.Assign(targets=[ast.Name(id=e.value.id, ctx=ast.Store())], value=val), st))
+                            else:
+                                idx = ast.Constant(value=i) if star_at is None or i < star_at else ast.UnaryOp(op=ast.USub(), operand=ast.Constant(value=len(tg.elts) - i))
+                                out.append(ast.copy_location(ast.Assign(targets=[ast.Name(id=e.id, ctx=ast.Store())],
+                                                                        value=ast.Subscript(value=ast.Name(id=tmp, ctx=ast.Load()), slice=idx, ctx=ast.Load())), st))
+                        continue
+                    out.append(st)
+                setattr(owner, fld, out)
+    return ast.fix_missing_locations(tree)
+
+
 def _split_tuple_assigns(tree):
     """`a, b = (x, y)` -> `a = x; b = y` when no right-hand side mentions a left-hand name (so the order does not matter)"""
     for owner in ast.walk(tree):
@@ -1252,7 +1290,7 @@ def normal_form(tree):
     tree = _strip_local_annotations(tree)
     tree = _inplace_methods(tree)
     tree = _unroll_constant_tables(tree)
-    tree = _enumerate_ranges(_peel_iterators(tree))
+    tree = _unpack_saved_tensors(_enumerate_ranges(_peel_iterators(tree)))
     tree = ast.fix_missing_locations(_split_tuple_assigns(_ExprCanon().visit(tree)))
     tree = _forelse_to_flag(tree)
     tree = _loop_returns_to_flag(tree)
